@@ -23,7 +23,23 @@ class L(LightNodeMixin):
         self.i = i
 
 
-CLS = {"mixin": M, "light": L}
+class ME(NodeMixin):
+    """value semantics: all instances compare equal"""
+
+    def __init__(self, i):
+        self.i = i
+
+    def __eq__(self, other):
+        return True
+
+    def __ne__(self, other):
+        return False
+
+    def __hash__(self):
+        return 5
+
+
+CLS = {"mixin": M, "light": L, "mixin_eq": ME}
 
 
 def _x(nodes, v):
@@ -136,8 +152,8 @@ def c04_body(cfg):
             nontrivial()
         for i in range(n):
             exp = definitions(parent, children, i)
-            got, types_ok = observed(nodes, nodes[i], cls is M)
-            if cls is M:
+            got, types_ok = observed(nodes, nodes[i], cls is not L)
+            if cls is not L:
                 exp["anchestors"] = exp["ancestors"]
             if got != exp:
                 d = [k for k in exp if got.get(k) != exp[k]]
